@@ -310,6 +310,7 @@ def run(ctx: Ctx, rep: Report) -> None:
     got = rep.adopt_rules(sub4, "C05-R11", ["C04-R3", "C04-R1", "C04-R7"], containing="evaluated request")
     got += rep.adopt_rules(sub4, "C05-R11", ["C04-R3", "C04-R1", "C04-R7"], containing="is sent")
     got += rep.adopt_rules(sub4, "C05-R11", ["C04-R1"], containing="binding per requested OID")
+    got += rep.adopt_rules(sub4, "C05-R11", ["C04-R7"], containing="leaves the caller's OID lists")  # only present when violated: the next request built from the same lists differs from the one asked for
     sub = ctx.sub_run("c18", rep)
     rep.adopt_rules(sub, "C05-R7", ["C18-R4"])
     # ... and a temporary override is undone completely (credentials AND the message-processing model), also when the block raises
